@@ -316,7 +316,10 @@ class Constraint(AbstractConstraint):
 
     def apply_to_values(self, values: Iterable[Value]) -> Iterable[Value]:
         for value in values:
-            yield from self.apply_to_value(value)
+            # An earlier constraint in a chain may have narrowed one value to a union
+            # (e.g. a failed isinstance(x, complex) leaves float | int).
+            for subval in flatten_values(value):
+                yield from self.apply_to_value(subval)
 
     def apply_to_value(self, value: Value) -> Iterable[Value]:
         """Yield values consistent with this constraint.
